@@ -3,17 +3,17 @@
   Model: Deepali/Model/Dispatch.lean (`torchSem` = trusted torch semantics, the rest = the dispatcher as written).
   `AlignedS/AlignedV`, `goodOp`, `OtherOK`, `CountShapeOK`, `WFS` are defined in Deepali/Proofs/Dispatch*.lean.
 
-  History: the defects behind the former C19_split_sections_refuted, C19_split_with_sizes_refuted,
-  C19_bool_mask_refuted, C19_ellipsis_refuted, C19_narrow_method_refuted, C19_flow_*_refuted, C19_demote_flow_refuted,
-  C19_narrow_negdim_refuted, C19_copy_flow_refuted, C19_from_images_axes_refuted and C19_append_axes_refuted were
-  repaired in /repo (commits 31c6369, a040c96, e158d15, e37fd36, 018b42a, 5463a8b, d25ad21); the model follows the
-  repaired code, these operation classes are now part of `goodOp` / `C19_demote` / `C19_copy_pickle`, and their old
-  witnesses are kept as positive instances (`C19_repaired_witnesses_aligned`, `C19_flow_batch_size_demoted`).
+  History: every defect behind the former `_refuted` theorems (C19_split_sections, C19_split_with_sizes, C19_bool_mask,
+  C19_ellipsis, C19_narrow_method, C19_flow_*, C19_demote_flow, C19_narrow_negdim, C19_copy_flow, C19_from_images_axes,
+  C19_append_axes, C19_flip, C19_roll, C19_index_select, C19_permute, C19_aligned_refuted) has been repaired in /repo
+  (commits 31c6369, a040c96, e158d15, e37fd36, 018b42a, 5463a8b, d25ad21 and PENDING-F19); the model follows the repaired
+  code, the operation classes are part of `goodOp` / `C19_demote` / `C19_copy_pickle`, and the old witnesses are kept as
+  positive instances (`C19_repaired_witnesses_aligned`, `C19_flow_batch_size_demoted`). No refutation is left.
 
-  OBLIGATIONS: C19_aligned_partial C19_aligned_refuted C19_demote C19_demote_image C19_demote_plain
+  OBLIGATIONS: C19_aligned_partial C19_demote C19_demote_image C19_demote_plain
     C19_flow_batch_size_demoted C19_repaired_witnesses_aligned C19_copy_pickle
     C19_from_images_axes C19_append_axes_mismatch_raises
-    C19_flip_refuted C19_roll_refuted C19_index_select_refuted C19_permute_refuted
+    C19_flip_aligned C19_roll_aligned C19_index_select_aligned C19_permute_demoted
 -/
 import Deepali.Proofs.DispatchCopy
 
@@ -22,28 +22,45 @@ set_option linter.unusedSectionVars false
 namespace Deepali
 open Dispatch
 
-/-- FULL STATEMENT (kept visible; refuted below for the code as it stands): every program over the whole operation
-    vocabulary keeps every typed result aligned — one grid per entry, grid shape = spatial shape, entry `i` carries
-    the grid and the axes of the input item whose data it holds. `a0` = the axes used by the flow inputs. -/
+/-- the generated vocabulary: every operation except the entry-wise combination of two DIFFERENT typed inputs
+    (`cat`/`stack` with the second input along a dimension other than the batch dimension), for which the property does
+    not say whose grid a mixed entry should carry (ASSUMPTIONS of harness/props/c19.py). -/
+def genOp : TOp → Bool
+  | .cat ops d => !ops.contains .other || dim0 d || (match d with | .kw v => decide (v < 0) | _ => false)
+  | .stack ops d => !ops.contains .other || dim0 d
+  | _ => true
+
+/-- FULL STATEMENT (kept visible; neither proved nor refuted any more): every program over the generated vocabulary keeps
+    every typed result aligned — one grid per entry, grid shape = spatial shape, entry `i` carries the grid and the axes
+    of the input item whose data it holds. `a0` = the axes used by the flow inputs.
+    Known obstacle to a proof at this strength with `AlignedS` as defined: an Image whose channels hold no data at all
+    (empty channel dimension, or only zero-padding selected) has provenance `none`; `from_images` / `collate` /
+    `Image.batch()` turn it into a batch entry whose provenance is `none` instead of `item (grid.src)` — harmless on the
+    implementation (nothing to compare), but the strict equation `prov = grids.map item` of `AlignedS` fails. -/
 def C19_aligned_Statement : Prop :=
   ∀ (a0 : Nat) (other : Option SVal) (prog : List TOp) (v : Val),
-    OtherOK a0 other → AlignedV a0 v → AlignedV a0 (runProg other prog v)
+    OtherOK a0 other → (∀ op ∈ prog, genOp op = true) → AlignedV a0 v → AlignedV a0 (runProg other prog v)
 
 /-- Proved part: programs of ANY length built from the operation classes of `goodOp` —
     elementwise / casts / clone / detach / in-place elementwise; copy / deepcopy / pickle; every single index form
     `b[int]`, `b[slice]`, `b[list | index tensor]`, `b[bool mask]`, `b[...]`, and index tuples without ellipsis;
     iteration and picking a tuple member; `cat` along dim 0 (dim omitted, positional 0, keyword 0) with itself or another
-    aligned batch; `split(int)`, `split([sections])`, `split_with_sizes`, `tensor_split(indices)` along dim 0; `chunk`,
-    `unbind`; method `narrow` (any dim incl. negative, non-negative start); `append` of another aligned batch; and,
-    along non-batch dims given as positive
-    literals, `flip`, `roll`, `narrow` (function), `select`, `index_select`, reductions; `interpolate`; pooling —
+    aligned batch; `append`; `split(int)`, `split([sections])`, `split_with_sizes`, `tensor_split(indices)` along dim 0;
+    `chunk`, `unbind`; method `narrow` (any dim, start >= 0); with ANY dim literals (positive, negative, several):
+    `flip`, `roll` (also of the flattened tensor), `index_select`, `permute`, `transpose`; along non-batch dims given as
+    positive literals: `narrow` (function), `select`, reductions; `interpolate`; pooling —
     keep every result aligned, for Image, ImageBatch, FlowField and FlowFields alike, starting from any aligned value
     (an exception yields nothing, I-1; plain results claim nothing).
-    Missing (see the `_refuted` theorems): flip/roll/index_select along dim 0, dim-0 transposition. `from_images`:
-    axes clause proved separately (`C19_from_images_axes`), alignment by witness + correspondence (an image whose channels
-    all hold no data has no provenance to compare). Covered by `C19_demote` (count and
-    shapes) + correspondence + oracle only: negative dim literals, stack, tensor_split(int), expand/repeat/reshape/
-    squeeze/unsqueeze, dim-0 reductions, permute/transpose of other dims, padding, index tuples with an ellipsis, collate. -/
+    STILL EXCLUDED from `goodOp` (no counterexample known; `C19_demote` proves one grid per entry + matching shapes for all
+    of them, provenance is covered by correspondence + oracle only), and why:
+    * `torch.narrow` / `select` / reductions / `cat` / `split*` / `tensor_split(indices)` with a NEGATIVE or batch-dim literal
+      where not listed above, `tensor_split(int)`, `stack`, `expand`, `repeat`, `reshape`, `squeeze`, `unsqueeze`, padding, full
+      reductions: the result is typed only if ndim, batch size and spatial shape survive; proving that the dim-0 provenance
+      is then unchanged needs `ndim >= 4` and `prov.length = shape[0]` as part of the invariant (not in `AlignedS`);
+    * index tuples containing an ellipsis: the normalisation of `__getitem__` (@329-341) is not yet proved to produce an
+      ellipsis-free index;
+    * `from_images`, `collate`, `Image.batch()`: see the obstacle described at `C19_aligned_Statement` (axes clause:
+      `C19_from_images_axes`). -/
 theorem C19_aligned_partial (a0 : Nat) (other : Option SVal) (prog : List TOp) (v : Val)
     (hother : OtherOK a0 other) (hgood : ∀ op ∈ prog, goodOp op = true) (hv : AlignedV a0 v) :
     AlignedV a0 (runProg other prog v) :=
@@ -59,18 +76,12 @@ example : AlignedV 1 (.one (mkInput true 3 2 [4, 5] 0 1)) ∧ OtherOK 1 (some (m
 
 example :
     let prog : List TOp := [.cat [.cur, .other] .dflt, .getitem (.single (.slice (some 1) none none)),
-      .getitem (.single (.list [3, 0, 1])), .ew, .flip [3], .pool 2 1 1, .narrowM 0 0 3,
+      .getitem (.single (.list [3, 0, 1])), .ew, .flip [3, -4], .roll [1, 2] (some [0, -1]), .indexSelect (-4) [1, 2, 0],
+      .pool 2 1 1, .narrowM 0 0 3,
       .getitem (.single (.mask [true, true, false])), .splitL [1, 1] .dflt, .pick 0, .getitem (.single (.int 0))]
     (∀ op ∈ prog, goodOp op = true) ∧
       runProg (some (mkInput false 2 2 [4, 5] 10 0)) prog (.one (mkInput false 3 2 [4, 5] 0 0)) =
-        .one (.image false ⟨[2, 4, 5], [.item 11, .item 11]⟩ ⟨11, [4, 5], []⟩ 0) := by
-  decide
-
-/-- the full statement is false for the code as it stands (witness: `flip(0)` on two items) -/
-theorem C19_aligned_refuted : ¬ C19_aligned_Statement := by
-  intro h
-  have := h 0 none [.flip [0]] (.one (mkInput false 2 1 [2, 2] 0 0)) (by intro o ho; cases ho) (by decide)
-  revert this
+        .one (.image false ⟨[2, 4, 5], [.item 2, .item 2]⟩ ⟨2, [4, 5], []⟩ 0) := by
   decide
 
 /-! ### demotion: mismatching results are plain tensors -/
@@ -129,10 +140,11 @@ example : step none (.narrowF 0 1 2) (.one (mkInput false 3 2 [4, 5] 0 0)) =
 
 /-- the former witnesses of the missing batch-size test in `FlowFields._torch_function_result` (repaired by e158d15):
     index_select(0,[2,0]), mean(0,keepdim), torch.narrow(x,0,1,2), repeat(2,1,1,1), expand(3,-1,-1,-1), cat(dim=-4)
-    on flow-field batches now return plain tensors. -/
+    on flow-field batches now return plain tensors (index_select: since PENDING-F19 a FlowFields with the two selected
+    grids). -/
 theorem C19_flow_batch_size_demoted :
     step none (.indexSelect 0 [2, 0]) (.one (mkInput true 3 2 [2, 2] 0 1)) =
-        .one (.plain ⟨[2, 2, 2, 2], [.item 2, .item 0]⟩) ∧
+        .one (.batch true ⟨[2, 2, 2, 2], [.item 2, .item 0]⟩ [⟨2, [2, 2], []⟩, ⟨0, [2, 2], []⟩] 1) ∧
       step none (.reduce false [0] true) (.one (mkInput true 3 2 [2, 2] 0 1)) = .one (.plain ⟨[1, 2, 2, 2], [.mixed]⟩) ∧
       step none (.narrowF 0 1 2) (.one (mkInput true 3 2 [2, 2] 0 1)) =
         .one (.plain ⟨[2, 2, 2, 2], [.item 1, .item 2]⟩) ∧
@@ -170,35 +182,37 @@ theorem C19_append_axes_mismatch_raises (a ao : Nat) (t t' : Raw) (gs gs' : List
   simp only [step, stepOne]
   exact append_mismatch_raises a ao t t' gs gs' h
 
-/-! ### refuted operation classes (each with the smallest witness; replayed on the implementation by the
-    harness stream `witnesses`) -/
+/-! ### reordering / re-selecting batch entries and moving the batch dimension (repaired by PENDING-F19) -/
 
-/-- F-19a `torch.flip` along dim 0 keeps the grids in the original order -/
-theorem C19_flip_refuted : ¬ (∀ v : Val, AlignedV 0 v → AlignedV 0 (step none (.flip [0]) v)) := by
-  intro h
-  have := h (.one (mkInput false 2 1 [2, 2] 0 0)) (by decide)
-  revert this; decide
+/-- `flip` along any dims: the grids are reversed exactly when the batch dimension is flipped -/
+theorem C19_flip_aligned (a0 : Nat) (other : Option SVal) (dims : List Int) (v : Val) (ho : OtherOK a0 other)
+    (hv : AlignedV a0 v) : AlignedV a0 (step other (.flip dims) v) :=
+  alignedV_step a0 other _ v ho rfl hv
 
-/-- F-19a `torch.roll` along dim 0 -/
-theorem C19_roll_refuted : ¬ (∀ v : Val, AlignedV 0 v → AlignedV 0 (step none (.roll 1 0) v)) := by
-  intro h
-  have := h (.one (mkInput false 2 1 [2, 2] 0 0)) (by decide)
-  revert this; decide
+/-- `roll`: the grids are rolled with the entries for every (shift, dim) pair on the batch dimension; a roll of the
+    flattened tensor is demoted -/
+theorem C19_roll_aligned (a0 : Nat) (other : Option SVal) (shifts : List Int) (dims : Option (List Int)) (v : Val)
+    (ho : OtherOK a0 other) (hv : AlignedV a0 v) : AlignedV a0 (step other (.roll shifts dims) v) :=
+  alignedV_step a0 other _ v ho rfl hv
 
-/-- F-19a `index_select(0, permutation)` -/
-theorem C19_index_select_refuted : ¬ (∀ v : Val, AlignedV 0 v → AlignedV 0 (step none (.indexSelect 0 [1, 0]) v)) := by
-  intro h
-  have := h (.one (mkInput false 2 1 [2, 2] 0 0)) (by decide)
-  revert this; decide
+/-- `index_select` along any dim: along the batch dimension the grids are selected with the entries -/
+theorem C19_index_select_aligned (a0 : Nat) (other : Option SVal) (dim : Int) (idx : List Int) (v : Val)
+    (ho : OtherOK a0 other) (hv : AlignedV a0 v) : AlignedV a0 (step other (.indexSelect dim idx) v) :=
+  alignedV_step a0 other _ v ho rfl hv
 
-/-- exchanging batch and channel dimension when N = C: entries mix all items but stay typed -/
-theorem C19_permute_refuted : ¬ (∀ v : Val, AlignedV 0 v → AlignedV 0 (step none (.transpose 0 1) v)) := by
-  intro h
-  have := h (.one (mkInput false 2 2 [2, 2] 0 0)) (by decide)
-  revert this; decide
+/-- `permute` / `transpose` of a batch (whichever dims): a plain tensor, never a mis-described batch -/
+theorem C19_permute_demoted (f : Bool) (t : Raw) (gs : List GridTag) (a : Nat) (other : Option SVal)
+    (perm : List Int) (d0 d1 : Int) :
+    ((∃ d, step other (.permute perm) (.one (.batch f t gs a)) = .one (.plain d)) ∨
+        step other (.permute perm) (.one (.batch f t gs a)) = .err .torch) ∧
+      ((∃ d, step other (.transpose d0 d1) (.one (.batch f t gs a)) = .one (.plain d)) ∨
+        step other (.transpose d0 d1) (.one (.batch f t gs a)) = .err .torch) := by
+  simp only [step, stepOne]
+  exact ⟨batchTF_nogrid_plain _ f t gs a other rfl rfl rfl rfl (torchSem_permute_not_ts perm t _),
+    batchTF_nogrid_plain _ f t gs a other rfl rfl rfl rfl (torchSem_transpose_not_ts d0 d1 t _)⟩
 
 /-- the former witnesses of the defects repaired in /repo (31c6369 narrow / `batch[...]`, a040c96 split sections,
-    e37fd36 boolean mask, 018b42a negative dim, d25ad21 from_images axes, 5463a8b copy) are aligned now — concrete instances of `C19_aligned_partial` -/
+    e37fd36 boolean mask, 018b42a negative dim, d25ad21 from_images axes, 5463a8b copy, PENDING-F19 flip / roll / index_select / permute) are aligned or demoted now — concrete instances of `C19_aligned_partial` -/
 theorem C19_repaired_witnesses_aligned :
     AlignedV 0 (step none (.splitL [1, 2] .dflt) (.one (mkInput false 3 1 [2, 2] 0 0))) ∧
       AlignedV 0 (step none (.splitWS [1, 2] .dflt) (.one (mkInput false 3 1 [2, 2] 0 0))) ∧
@@ -208,6 +222,19 @@ theorem C19_repaired_witnesses_aligned :
       AlignedV 0 (step none (.narrowM (-4) 1 1) (.one (mkInput false 2 1 [2, 2] 0 0))) ∧
       AlignedV 1 (runProg none [.iter, .fromImages] (.one (mkInput true 2 2 [2, 2] 0 1))) ∧
       AlignedV 1 (step none .copy (.one (mkInput true 2 2 [2, 2] 0 1))) ∧
+      step none (.flip [0]) (.one (mkInput false 2 1 [2, 2] 0 0)) =
+        .one (.batch false ⟨[2, 1, 2, 2], [.item 1, .item 0]⟩ [⟨1, [2, 2], []⟩, ⟨0, [2, 2], []⟩] 0) ∧
+      step none (.roll [1] (some [0])) (.one (mkInput false 3 1 [2, 2] 0 0)) =
+        .one (.batch false ⟨[3, 1, 2, 2], [.item 2, .item 0, .item 1]⟩ [⟨2, [2, 2], []⟩, ⟨0, [2, 2], []⟩, ⟨1, [2, 2], []⟩] 0) ∧
+      step none (.indexSelect 0 [1, 0]) (.one (mkInput true 2 2 [2, 2] 0 1)) =
+        .one (.batch true ⟨[2, 2, 2, 2], [.item 1, .item 0]⟩ [⟨1, [2, 2], []⟩, ⟨0, [2, 2], []⟩] 1) ∧
+      step none (.transpose 0 1) (.one (mkInput false 2 2 [2, 2] 0 0)) = .one (.plain ⟨[2, 2, 2, 2], [.mixed, .mixed]⟩) ∧
+      step none (.transpose 2 3) (.one (mkInput false 2 1 [2, 2] 0 0)) = .one (.plain ⟨[2, 1, 2, 2], [.item 0, .item 1]⟩) ∧
+      step none (.roll [3] none) (.one (mkInput false 2 2 [2, 2] 0 0)) = .one (.plain ⟨[2, 2, 2, 2], [.mixed, .mixed]⟩) ∧
+      -- an empty batch keeps its (empty) grid list under flip / roll / index_select
+      step none (.indexSelect 1 [0]) (.one (.batch false ⟨[0, 1, 2, 2], []⟩ [] 0)) = .one (.batch false ⟨[0, 1, 2, 2], []⟩ [] 0) ∧
+      step none (.flip [0]) (.one (.batch false ⟨[0, 1, 2, 2], []⟩ [] 0)) = .one (.batch false ⟨[0, 1, 2, 2], []⟩ [] 0) ∧
+      step none (.roll [1] (some [0])) (.one (.batch false ⟨[0, 1, 2, 2], []⟩ [] 0)) = .one (.batch false ⟨[0, 1, 2, 2], []⟩ [] 0) ∧
       step none (.narrowM 0 1 1) (.one (mkInput false 2 1 [2, 2] 0 0)) =
         .one (.batch false ⟨[1, 1, 2, 2], [.item 1]⟩ [⟨1, [2, 2], []⟩] 0) ∧
       step none (.splitL [1, 2] .dflt) (.one (mkInput false 3 1 [2, 2] 0 0)) =
